@@ -18,6 +18,8 @@ checks = sys.argv[4:] or ["C%02d" % i for i in range(1, 21)]
 ENV = dict(os.environ, GOFLAGS="-mod=mod", GOPROXY="off", GOSUMDB="off", GOTOOLCHAIN="local")
 repo = "/tmp/ev_%s_repo" % name
 verif = "/tmp/ev_%s_verif" % name
+VERIF_SRC = os.environ.get("VERIF_SRC", "/verif")          # the machinery to evaluate (a snapshot under vp run)
+SEEDED_DST = os.environ.get("SEEDED_DST", "/verif/seeded")  # where meta.json is written
 
 
 def sh(cmd, cwd=None, env=ENV, timeout=3000):
@@ -59,7 +61,7 @@ try:
     caught = {}
     if confirmed:
         shutil.rmtree(verif, ignore_errors=True)
-        sh("rsync -a --exclude .git --exclude work --exclude replays --exclude evidence --exclude seeded /verif/ %s/" % verif)
+        sh("rsync -a --exclude .git --exclude work --exclude replays --exclude evidence --exclude seeded %s/ %s/" % (VERIF_SRC.rstrip("/"), verif))
         os.makedirs(os.path.join(verif, "replays"), exist_ok=True)
         sh("sed -i 's|=> /repo|=> %s|' harness/go.mod" % repo, cwd=verif)
         env = dict(ENV, VERIF_REPO=repo, VERIF_TIER="quick", VERIF_SEED=os.environ.get("VERIF_SEED", "1"), VERIF_NO_CLEAN="1")
@@ -77,14 +79,14 @@ try:
                          "no_failing_input": any("no-failing-input-found" in l for l in lines),
                          "detail": (detail or "")[:400], "secs": round(time.time() - t0, 1)}
             meta["ran"].append("VERIF_REPO=<scratch copy with the change> ./check %s -> rc %d" % (c, rc))
-        if os.environ.get("EVAL_MERGE") and os.path.exists(os.path.join("/verif/seeded", name, "meta.json")):
-            old = json.load(open(os.path.join("/verif/seeded", name, "meta.json"))).get("checks", {})
+        if os.environ.get("EVAL_MERGE") and os.path.exists(os.path.join(SEEDED_DST, name, "meta.json")):
+            old = json.load(open(os.path.join(SEEDED_DST, name, "meta.json"))).get("checks", {})
             old.update(caught)
             caught = dict(sorted(old.items()))
         meta["checks"] = caught
         meta["caught_by"] = sorted(c for c, v in caught.items() if v["violation"])
         meta["caught_with_concrete_input"] = sorted(c for c, v in caught.items() if v["violation"] and not v["no_failing_input"])
-    dst = os.path.join("/verif/seeded", name)
+    dst = os.path.join(SEEDED_DST, name)
     os.makedirs(dst, exist_ok=True)
     for f in ("patch.diff", "demo_test.go", "notes.md"):
         if os.path.exists(os.path.join(src, f)) and os.path.abspath(src) != os.path.abspath(dst):
